@@ -334,6 +334,20 @@ func runConc(c ConcCase) (st concStats, v *Violation) {
 				return true
 			}
 		}
+		// As the recorded finding says (and as the linearizability branch
+		// below does): two overlapping writers of ONE key can damage the entry
+		// of ANOTHER key of the bucket, because Index.Update / Remove match by
+		// stored prefix. The damage stays, so any such pair that began before h
+		// ended counts, whatever key of h's bucket it wrote.
+		hb := bucketOf(c.Keys[h.Key].Digest, c.Cfg.Bits)
+		for i, a := range hist {
+			for _, b := range hist[i+1:] {
+				if a.Task != b.Task && a.Key == b.Key && a.Mutating && b.Mutating && overlap(a, b) &&
+					a.Call < h.Ret && b.Call < h.Ret && bucketOf(c.Keys[a.Key].Digest, c.Cfg.Bits) == hb {
+					return true
+				}
+			}
+		}
 		return false
 	}
 	gcOverlap := func(h histOp) bool {
